@@ -68,8 +68,12 @@ def memo_rules(ctx: Ctx, rep: Report, rid: str = "R05.1", only_class: Optional[s
             rep.instance()
             deps = ef.self_reads(f, None) - {memo}
             resets_needed = []
-            for g in cls.all_funcs():
+            for g in [x for c in cls.mro for x in c.all_funcs()]:
                 if g is f or g.name == "__init__":
+                    continue
+                # an inherited accessor that the class overrides is not a writer of this class
+                own = (cls.lookup_setter(g.name) if g.kind == "setter" else cls.lookup_getter(g.name) if g.kind == "getter" else cls.lookup_method(g.name))
+                if own is not g:
                     continue
                 direct = {t.attr for n in own_nodes(g.node) if isinstance(n, (ast.Assign, ast.AnnAssign, ast.AugAssign)) for t in (n.targets if isinstance(n, ast.Assign) else [n.target]) if isinstance(t, ast.Attribute) and src(t.value) == "self"}
                 if direct & deps:
